@@ -139,7 +139,8 @@ fn relate(c: &Case, m: &c04::Mat, ctx: &Ctx, dir: &std::path::Path) -> Result<Ve
 }
 
 fn check(c: &Case, ctx: &Ctx) -> Outcome {
-    let m = c04::materialise(c);
+    // (sample names unique: a VCF header cannot hold two samples of one name)
+    let m = c04::materialise_unique_names(c);
     let dir = ctx.case_dir();
     let r = relate(c, &m, ctx, &dir);
     ctx.done(&dir);
